@@ -13,7 +13,8 @@ pub fn dispatch(ctx: &Ctx) -> i32 {
             let (mut t, mut m) = e1::collect_file_prop(ctx, e1::FileProp::C02);
             t.merge(e1::scaling_part(ctx, e1::FileProp::C02));
             t.merge(faults::retry_part(ctx, "C02"));
-            m.rule = format!("{} Plus the scaling family of C01 (long tables, large samples, look-alike values) and, on a scripted sink, every representative history x failure at every write call x every error kind x three finish attempts: whenever a finish reports success the sink must hold one well-formed file.", m.rule);
+            t.merge(e1::audio_none_part());
+            m.rule = format!("{} Plus the scaling family of C01 (long tables, large samples, look-alike values) and, on a scripted sink, every representative history x failure at every write call x every error kind x three finish attempts: whenever a finish reports success the sink must hold one well-formed file. Builder paths with audio codec None (alone, or after a real codec; both setters) x 4 codecs x both layouts x {{0, 2}} frames: one video track only.", m.rule);
             combine(ctx, (t, m), frag::collect(ctx, "C02"))
         }
         "C03" => timing::check_c03(ctx),
